@@ -224,7 +224,9 @@ RewriteCmds == {"tag", "rewrite", "repair-snapshots"}
 SnapshotNotLost ==
   \A s \in DOMAIN snaps \ DOMAIN snaps' :
      (l <= Len(Trace) /\ CmdOf(E.proc) \in RewriteCmds)
-        => \E s2 \in DOMAIN snaps' : snaps'[s2].orig \in {s, OrigOf(snaps, s)}
+        => \/ \E s2 \in DOMAIN snaps' : snaps'[s2].orig \in {s, OrigOf(snaps, s)}
+           \* `repair snapshots --forget` drops a snapshot that environment damage made unrepairable
+           \/ (CmdOf(E.proc) = "repair-snapshots" /\ Reach(snaps[s].tree) \cap aux.baseB # {})
 R_SnapshotNotLost == [][SnapshotNotLost]_storage
 
 \* C26: original / tree relations of a snapshot saved by such a command
